@@ -4,7 +4,7 @@ from pyvc.engine import Obj, NVec
 from pyvc import library as L
 from pyvc.values import PyExc, to_real, z_and, z_or, z_not, to_bool
 
-FUNCS = ['geometry.in_rectangle', 'geometry.rectangles_intersect', 'geometry.sub_rectangles', 'geometry.bounds_of_points',
+FUNCS = ['geometry.line_intersects_rectangle', 'geometry.in_rectangle', 'geometry.rectangles_intersect', 'geometry.sub_rectangles', 'geometry.bounds_of_points',
          'mulgrids.layer.contains_elevation', 'mulgrids.mulgrid.layer_containing_elevation', 'mulgrids.quadtree.leaf',
          'geometry.in_polygon']
 
@@ -148,7 +148,35 @@ def p_in_polygon_triangle(e, _a=None):
     e.explore(prog, 'in_polygon_triangle')
 
 
-PROGRAMS = [('p_rectangles', None), ('p_sub_rectangles', None)] + [('p_bounds_of_points', n) for n in (1, 2, 3, 5, 8)] + \
+def p_line_rectangle(e, _a=None):
+    """line_intersects_rectangle (Cohen-Sutherland clipping): a False answer is sound - no point
+    of the segment lies in the rectangle (the direction column_track relies on to skip columns);
+    the clipping divisions never divide by zero."""
+    def prog(e):
+        g = e.load_module('geometry').globals
+        r = _rect(e, 'r')
+        e.assume(z3.And(r[0].items[0] < r[1].items[0], r[0].items[1] < r[1].items[1]))
+        a = NVec([e.sym_real('ax'), e.sym_real('ay')])
+        b = NVec([e.sym_real('bx'), e.sym_real('by')])
+        try:
+            res = e.call(g['line_intersects_rectangle'], [r, [a, b]])
+        except PyExc as ex:
+            e.fail('safety:line_intersects_rectangle_no_exception', 'raises %s' % ex.cls)
+            return
+        e.prove(True, 'safety:line_intersects_rectangle_no_exception')
+        if res is False:
+            lam = e.sym_real('lam', 0, 1)
+            p = NVec([a.items[0] + lam * (b.items[0] - a.items[0]), a.items[1] + lam * (b.items[1] - a.items[1])])
+            e.prove(z3.Not(_inside(p, r)), 'post:rejected_segment_has_no_point_in_the_rectangle')
+        else:
+            # accepted: the two end points are not both strictly beyond one and the same side
+            sides = [z3.And(a.items[0] < r[0].items[0], b.items[0] < r[0].items[0]), z3.And(a.items[0] > r[1].items[0], b.items[0] > r[1].items[0]),
+                     z3.And(a.items[1] < r[0].items[1], b.items[1] < r[0].items[1]), z3.And(a.items[1] > r[1].items[1], b.items[1] > r[1].items[1])]
+            e.prove(z3.Not(z3.Or(*sides)), 'post:accepted_segment_is_not_beyond_one_side')
+    e.explore(prog, 'line_rectangle')
+
+
+PROGRAMS = [('p_line_rectangle', None), ('p_rectangles', None), ('p_sub_rectangles', None)] + [('p_bounds_of_points', n) for n in (1, 2, 3, 5, 8)] + \
            [('p_layer_containing_elevation', None), ('p_quadtree_leaf', None), ('p_in_polygon_triangle', None)]
 
 
@@ -159,6 +187,17 @@ def _fl(v):
 def replay(obname, model, result):
     m = model or {}
     prog = result['program']
+    if prog == 'p_line_rectangle' and 'ax' in m:
+        return ("import numpy as np\nfrom geometry import line_intersects_rectangle\n"
+                "r = [np.array([%s, %s]), np.array([%s, %s])]; a = np.array([%s, %s]); b = np.array([%s, %s])\n"
+                "try:\n"
+                "    res = line_intersects_rectangle(r, [a, b])\n"
+                "    pts = [a + l * (b - a) for l in list(np.linspace(0., 1., 2001)) + [%s]]\n"
+                "    hit = any(r[0][0] <= p[0] <= r[1][0] and r[0][1] <= p[1] <= r[1][1] for p in pts)\n"
+                "    ok = not (res is False and hit)\n"
+                "    detail = 'rect %%r segment %%r -> %%r: answer %%r, a point of the segment inside: %%r' %% (r, a, b, res, hit)\n"
+                "except Exception as ex:\n"
+                "    ok, detail = False, '%%s: %%s' %% (type(ex).__name__, ex)\n") % (tuple(_fl(m[k]) for k in ('rx0', 'ry0', 'rx1', 'ry1', 'ax', 'ay', 'bx', 'by')) + (_fl(m.get('lam', 0)),))
     if prog in ('p_rectangles', 'p_sub_rectangles') and 'rx0' in m:
         q = 'None' if 'qx0' not in m else '[np.array([%s, %s]), np.array([%s, %s])]' % tuple(_fl(m[k]) for k in ('qx0', 'qy0', 'qx1', 'qy1'))
         return ("import numpy as np\nfrom geometry import *\n"
